@@ -174,15 +174,23 @@ pub fn gen_c03(c: &mut Ctx) {
             let pairs: Vec<(usize, usize)> = if n <= full_upto {
                 (0..n).flat_map(|i| (0..n).map(move |j| (i, j))).collect()
             } else {
+                // every pair over the indices next to a regime or size boundary (in-word 0..5, first
+                // word indices 6.., 12 = 2 * 6, the last two), plus random pairs
+                let mut b: Vec<usize> = vec![0, 1, 4, 5, 6, 7, 11, 12, 13, n - 2, n - 1];
+                b.retain(|&v| v < n);
+                b.sort();
+                b.dedup();
+                let mut ps: Vec<(usize, usize)> = b.iter().flat_map(|&i| b.iter().map(move |&j| (i, j))).collect();
                 let k = if c.thorough { 24 } else { 8 };
-                (0..k).map(|_| (c.rng.below(n), c.rng.below(n))).collect()
+                ps.extend((0..k).map(|_| (c.rng.below(n), c.rng.below(n))));
+                ps
             };
             for (i, j) in pairs {
                 let a = if c.rng.below(3) == 0 { gen_tab(&mut c.rng, n) } else { gen_dense(&mut c.rng, n) };
                 let mode = if c.rng.coin() { "ip" } else { "cp" };
                 p!(c, "swap {} {} {} {} {}", ty, mode, a.show(), i, j);
             }
-            let vars: Vec<usize> = if n <= full_upto || c.thorough { (0..n).collect() } else { (0..4).map(|_| c.rng.below(n)).collect() };
+            let vars: Vec<usize> = (0..n).collect();
             for i in vars {
                 let a = gen_dense(&mut c.rng, n);
                 let b = gen_tab(&mut c.rng, n);
